@@ -381,6 +381,18 @@ func EntityCases(thorough bool) []*Case {
 			e.HasQueryBlock, e.DefaultStatusFilter = true, []string{"ACTIVE"}
 		case 3:
 			e.HasQueryBlock, e.EventsInGet, e.DefaultStatusFilter = true, true, []string{"ACTIVE"}
+		case 4: // a filter on a later status whose name ends like an earlier one (ACTIVE / INACTIVE)
+			e.HasQueryBlock = true
+			if len(e.Statuses) > 1 {
+				e.DefaultStatusFilter = []string{e.Statuses[len(e.Statuses)-1].Name}
+			} else {
+				e.DefaultStatusFilter = []string{e.Statuses[0].Name}
+			}
+		case 5: // every status, in reverse declaration order
+			e.HasQueryBlock = true
+			for i := len(e.Statuses) - 1; i >= 0; i-- {
+				e.DefaultStatusFilter = append(e.DefaultStatusFilter, e.Statuses[i].Name)
+			}
 		}
 		f := file("t/v1", "a")
 		f.Add(e)
@@ -396,7 +408,7 @@ func EntityCases(thorough bool) []*Case {
 			out = append(out, c)
 		}
 	}
-	lim := []int{6, 9, 3, 3, 3, 3, 4, 4}
+	lim := []int{6, 9, 3, 3, 3, 3, 4, 6}
 	get := func(d *dims, i int) *int {
 		return []*int{&d.name, &d.keys, &d.data, &d.statuses, &d.events, &d.summaries, &d.commands, &d.query}[i]
 	}
@@ -439,7 +451,7 @@ func EntityCases(thorough bool) []*Case {
 				for c := 0; c < 3; c++ {
 					for e := 0; e < 3; e++ {
 						for s := 0; s < 4; s++ {
-							for q := 0; q < 4; q++ {
+							for q := 0; q < 6; q++ {
 								add(dims{a, b, 1, 1, c, e, s, q})
 							}
 						}
